@@ -353,8 +353,6 @@ theorem showStamp_safe (t : Stamp) : (showStamp t).all safeChar = true := by
       · subst h; decide
       · exact h9 ch (mem_dropTrailingZeros h)
 
-/-- the reference codec with the date component replaced by the real RFC 3339 implementation -/
-def realDateCodec : Codec := { refCodec with showDate := rfc3339Show, readDate := rfc3339Read }
 
 /-- under the calendar hypothesis alone, `CodecLaws` holds with real integers, real base64 and real dates;
     only the float component is still a stand-in -/
